@@ -268,6 +268,11 @@ def obligations(tier, seed):
     for shape in ("two-blocks", "default-then-block", "graph-keyword", "one-block"):
         obs.append(dict(oid="K/trig-labels/%s" % shape, family="k-doc-labels", desc={"shape": shape}, sig=[("l1", "i"), ("l2", "i")],
                         pre=["97 <= l1 <= 122", "97 <= l2 <= 122"], budget=600, twin_budget=300))
+    for second in ("at-prefix", "sparql-prefix", "sparql-prefix-lower"):
+        for third in (False, True):
+            obs.append(dict(oid="K/ttl-prefix-redeclare/%s%s" % (second, "+again" if third else ""), family="k-doc-prefix",
+                            desc={"second": second, "third": third}, sig=[("c1", "i"), ("c2", "i")],
+                            pre=["97 <= c1 <= 122", "97 <= c2 <= 122"], budget=600, twin_budget=300))
     for present in ([1, 0, 0], [1, 0, 1], [1, 1, 0], [0, 1, 1], [1, 1, 1], [0, 0, 1], [0, 0, 0]):
         obs.append(dict(oid="K/rdfxml-lang/%s" % "".join(map(str, present)), family="k-rdfxml-lang", desc={"present": present},
                         sig=[("l0", "s"), ("l1", "s"), ("l2", "s")], pre=["len(l0) <= 1", "len(l1) <= 1", "len(l2) <= 1"],
@@ -283,6 +288,9 @@ def bounds(tier):
             "k-nt-reader / k-ttl-reader": "ntriples.unquote and SinkParser.strconst (4 quoting styles) vs a grammar-derived decoder on "
                                           "a <escape> b with a, b symbolic strings of length <= %d and %d enumerated escapes"
                                           % (1 if tier == "quick" else 2, 8 if tier == "quick" else len(kern.ESCAPES)),
+            "k-doc-prefix": "a Turtle document declaring a prefix, using it, declaring a prefix again (@prefix / PREFIX / prefix; the two prefix names end in "
+                            "symbolic code points, so 'same name or not' is the solver's choice) and using it; optionally the first name once more: "
+                            "every prefixed name expands with the declaration in force",
             "k-doc-labels": "4 TriG document shapes with two blank node labels whose last character is a symbolic code point a-z: the real statement "
                             "parser into a real Dataset; same label <=> same node",
             "k-iri-join": "notation3.join (resolution of relative IRIs against @base): base paths 0-2 levels deep, references with 0-3 '../' "
